@@ -17,6 +17,13 @@ use serde::{Deserialize, Serialize};
 
 #[derive(Debug, Clone, Serialize, Deserialize)]
 pub struct Case {
+    /// before some transitions the caller assigns the public `position` field
+    #[serde(default)]
+    pub reposition: bool,
+    /// the whole target is translated by this many (smallest) length scales: far-from-origin
+    /// positions stress the rounding of the U-turn test (Gaussian targets only)
+    #[serde(default)]
+    pub offset: R,
     pub spec: Spec,
     /// 0: T=f64/B=f64 (tight), 1: T=f64/B=f32, 2: T=f32/B=f32
     pub combo: u8,
@@ -37,16 +44,42 @@ fn strategy(max_steps: usize) -> BoxedStrategy<Case> {
         super::c18::seed_strategy(),
         prop_oneof![3 => Just(0.0f64), 2 => 0.0f64..3.0, 1 => 3.0f64..6.0],
         proptest::collection::vec(eps, 1..=max_steps),
-        any::<u64>(),
+        (any::<u64>(), proptest::bool::weighted(0.25), prop_oneof![4 => Just(0.0f64), 1 => Just(1e3f64), 1 => Just(1e5f64), 1 => Just(-3e5f64)]),
     )
-        .prop_map(|(spec, combo, seed, displace, eps_rel, data_seed)| Case {
-            spec,
+        .prop_map(|(spec, combo, seed, displace, eps_rel, (data_seed, reposition, offset))| {
+            // on f32 back ends positions 1e5 scales from the origin cannot even be advanced by a
+            // small leapfrog step (increments fall below one ulp; the doubling then never ends —
+            // the library has no depth cap): keep those to the f64 back end
+            let offset = if combo != 0 { offset.clamp(-1e3, 1e3) } else { offset };
+            (spec, combo, seed, displace, eps_rel, data_seed, reposition, offset)
+        })
+        .prop_map(|(spec, combo, seed, displace, eps_rel, data_seed, reposition, offset)| Case {
+            reposition,
+            offset: R(offset),
+            spec: shift_spec(spec, offset),
             combo,
             seed,
             displace: R(displace),
             eps_rel: eps_rel.into_iter().map(R).collect(),
             data_seed,
         }))
+}
+
+/// translate a Gaussian target by `offset` x its smallest length scale along every axis
+fn shift_spec(spec: Spec, offset: f64) -> Spec {
+    if offset == 0.0 {
+        return spec;
+    }
+    let sc = spec.min_scale();
+    match spec {
+        Spec::Gauss { dim, mean, prec } => Spec::Gauss {
+            dim,
+            // (rounded to f32-representable values so that every backend sees the same target)
+            mean: mean.iter().map(|m| R(((m.0 + offset * sc) as f32) as f64)).collect(),
+            prec,
+        },
+        other => other,
+    }
 }
 
 fn maxabs(v: &[f64]) -> f64 {
@@ -315,18 +348,29 @@ where
     let sd = c.spec.marginal_sd();
     let start: Vec<f64> = c.spec.interior_point(&mut rng).iter().enumerate().map(|(i, v)| v + c.displace.0 * sd[i] * rng.normal()).collect();
     let start_t: Vec<T> = start.iter().map(|v| T::from_f64(*v).unwrap()).collect();
-    let mut chain = NUTSChain::<T, B, HTarget>::new(HTarget::new(c.spec.clone()), start_t, T::from_f64(0.8).unwrap()).set_seed(c.seed);
+    let target = HTarget::with_budget(c.spec.clone(), 60_000);
+    let mut chain = NUTSChain::<T, B, HTarget>::new(target.clone(), start_t, T::from_f64(0.8).unwrap()).set_seed(c.seed);
     let scale = c.spec.min_scale();
     let mut nontrivial = false;
-    for er in &c.eps_rel {
+    for (si, er) in c.eps_rel.iter().enumerate() {
         let eps = T::from_f64(er.0 * scale).unwrap();
         chain.verif_set_epsilon(eps);
+        if c.reposition && si >= 1 {
+            // `position` is a public field: the next transition must start from the new point
+            let np: Vec<f64> = c.spec.interior_point(&mut rng);
+            chain.position = tensor1::<B>(&np);
+            cov.class("position-reassigned-between-transitions");
+        }
         // keep the chain out of warm-up so that the forced step size is what the next step uses
         let rng_before = chain.verif_rng();
         verif::nuts_trace_start();
         let r = no_panic(|| chain.step());
         let tr = verif::nuts_trace_take();
         r.map_err(|m| Fail::new("nuts-panic", format!("NUTSChain::step panicked: {m}")))?;
+        if target.exhausted() {
+            cov.class("evaluation-budget-exhausted-skip");
+            break;
+        }
         ensure!(tr.len() == 1, "nuts-trace", "{} trace records for one step", tr.len());
         let rec = &tr[0];
         let used = num_traits::ToPrimitive::to_f64(&eps).unwrap();
@@ -543,6 +587,34 @@ fn check_tree(c: &TreeCase, cov: &mut Cov) -> CheckResult {
     if um > 1e-9 && all_finite {
         let got = verif_stop_criterion::<B>(tensor1::<B>(&t.minus.x), tensor1::<B>(&t.plus.x), tensor1::<B>(&t.minus.p), tensor1::<B>(&t.plus.p));
         ensure!(got == nu, "nuts-stop-criterion", "stop_criterion = {got}, reference (theta+ - theta-).r- >= 0 and (theta+ - theta-).r+ >= 0 gives {nu}");
+    }
+    // U-turn test far from the origin on the f32 backend: all inputs exactly representable, so
+    // the reference is exact and the decision has a margin >= 1
+    {
+        let mut r2 = Prng::new(c.data_seed ^ 0x0FF5E7);
+        let off = [0.0, 1024.0, 1048576.0, -4194304.0][(c.rng_seed % 4) as usize];
+        let dd = d.min(6);
+        let minus_x: Vec<f64> = (0..dd).map(|_| off + (r2.below(17) as f64 - 8.0)).collect();
+        let diff: Vec<f64> = (0..dd).map(|_| r2.below(9) as f64 - 4.0).collect();
+        let plus_x: Vec<f64> = (0..dd).map(|i| minus_x[i] + diff[i]).collect();
+        let pm_: Vec<f64> = (0..dd).map(|_| (r2.below(9) as f64 - 4.0) * 0.25).collect();
+        let pp_: Vec<f64> = (0..dd).map(|_| (r2.below(9) as f64 - 4.0) * 0.25).collect();
+        let dm: f64 = (0..dd).map(|i| diff[i] * pm_[i]).sum();
+        let dp: f64 = (0..dd).map(|i| diff[i] * pp_[i]).sum();
+        let want = dm >= 0.0 && dp >= 0.0;
+        let got = verif_stop_criterion::<B32>(tensor1::<B32>(&minus_x), tensor1::<B32>(&plus_x), tensor1::<B32>(&pm_), tensor1::<B32>(&pp_));
+        ensure!(
+            got == want,
+            "nuts-stop-criterion far-from-origin",
+            "stop_criterion on the f32 backend = {got} for theta- {:?}, theta+ {:?}, r- {:?}, r+ {:?} (exact dot products {dm} and {dp})",
+            minus_x,
+            plus_x,
+            pm_,
+            pp_
+        );
+        if off != 0.0 {
+            cov.class("stop-criterion-far-from-origin-f32");
+        }
     }
     let (lx, lp_, lg, llp) = verif_leapfrog::<B, f64, HTarget>(tensor1::<B>(&x), tensor1::<B>(&p), tensor1::<B>(&s0.g), c.v as f64 * eps, &target);
     let one = rn::leap(&c.spec, &s0, c.v as f64 * eps);
